@@ -181,9 +181,13 @@ var c16Modes = []c16Mode{
 	{"default", LinterOptions{Color: ColorOptionKindNever}},
 	{"oneline", LinterOptions{Oneline: true, Color: ColorOptionKindNever}},
 	{"oneline-color", LinterOptions{Oneline: true, Color: ColorOptionKindAlways}},
+	{"default-color", LinterOptions{Color: ColorOptionKindAlways}},
 	{"json", LinterOptions{Format: "{{json .}}", Color: ColorOptionKindNever}},
 	{"custom", LinterOptions{Format: c16Custom, Color: ColorOptionKindNever}},
 }
+
+var c16EscRe = regexp.MustCompile(`\x1b\[\d+m`)
+var c16TrailingEscRe = regexp.MustCompile(`(?:\x1b\[\d+m)+$`)
 
 func c16MsgClass(m string) string {
 	m = regexp.MustCompile(`"(?:[^"\\]|\\.)*"`).ReplaceAllString(m, `"_"`)
@@ -200,6 +204,8 @@ func c16CheckRender(r *vReport, what, src string) {
 // c16CheckRenderAt lints src as the file at path (inside proj when given) in every mode.
 func c16CheckRenderAt(r *vReport, what, path, src string, proj *Project, replay map[string]any) {
 	var base []*Error
+	var defaultOut string // output of the default mode and the indexes of its header lines
+	var defaultHeaders []int
 	for mi, m := range c16Modes {
 		var out bytes.Buffer
 		opts := m.opts
@@ -239,8 +245,14 @@ func c16CheckRenderAt(r *vReport, what, path, src string, proj *Project, replay 
 			continue
 		}
 		o := out.String()
+		if os.Getenv("VERIF_DEBUG") != "" {
+			fmt.Printf("mode %s output %q\n", m.name, o)
+		}
 		switch m.name {
 		case "oneline", "oneline-color":
+			// in colour mode the sequence that resets the colour of the last line follows its line break:
+			// escape sequences after the last line break are not a line
+			o = c16TrailingEscRe.ReplaceAllString(o, "")
 			lines := strings.Split(strings.TrimSuffix(o, "\n"), "\n")
 			if o == "" {
 				lines = nil
@@ -252,9 +264,24 @@ func c16CheckRenderAt(r *vReport, what, path, src string, proj *Project, replay 
 			for i, e := range errs {
 				c16ParseBack(r, what, m.name, lines[i], e, replay)
 			}
+		case "default-color":
+			// colour adds escape sequences and nothing else; the header lines (where the default mode
+			// has them) parse back with the matcher as they are
+			plain := c16EscRe.ReplaceAllString(o, "")
+			if plain != defaultOut {
+				r.Violation("color-changes-text", fmt.Sprintf("%s: default mode with colour, escape sequences removed, differs from the output without colour\n%q\n%q", what, vTrunc(plain, 400), vTrunc(defaultOut, 400)), replay)
+				continue
+			}
+			lines := strings.Split(o, "\n")
+			for k, li := range defaultHeaders {
+				if k < len(errs) && li < len(lines) {
+					c16ParseBack(r, what, m.name, lines[li], errs[k], replay)
+				}
+			}
 		case "default":
 			lines := strings.Split(o, "\n")
 			li := 0
+			defaultOut = o
 			for _, e := range errs {
 				if li >= len(lines) {
 					r.Violation("default-missing-header", fmt.Sprintf("%s: output ended before the header of %q", what, e.Message), replay)
@@ -263,6 +290,7 @@ func c16CheckRenderAt(r *vReport, what, path, src string, proj *Project, replay 
 				if !c16ParseBack(r, what, m.name, lines[li], e, replay) {
 					break
 				}
+				defaultHeaders = append(defaultHeaders, li)
 				li++
 				// optional snippet block: "  |", "N | src", "  | ^~~"
 				if li+2 < len(lines) && strings.HasSuffix(strings.TrimRight(lines[li], " "), "|") && strings.TrimLeft(lines[li], " ") == "|" {
@@ -374,8 +402,8 @@ func TestVerifC16(t *testing.T) {
 	r.Bounds["snippet_source_length"] = maxLen
 	r.Bounds["payloads"] = len(c16Payloads)
 	r.Bounds["modes"] = len(c16Modes)
-	r.Extra["rule"] = "(a) every value and key position of 4 clean seeds + 1 noisy seed (type-echoing diagnostics) x 12 hostile payloads in double-quoted YAML; each diagnostic list rendered in 5 modes (default, -oneline, -oneline with colour, {{json .}}, custom template) and parsed back with the shipped problem-matcher regexp / JSON; the same payloads at every value and key of a local action metadata file and of a local reusable workflow file (as string, sequence, mapping; one position and every pair of positions), rendering the workflow that uses them; (b) PrettyPrint and GetTemplateFields over all sources <= L over {a, space, tab, LF, é, あ, CR, U+2028} (lines as the YAML parser counts them) x line -1..4 x column -1..7 against a reference. class = (kind, message skeleton) | snippet outcome; non-trivial = at least one diagnostic"
-	r.Extra["assumptions"] = []string{"the matcher's JavaScript regexp is translated to Go regexp syntax with '.' narrowed to JavaScript's meaning (no LF, CR, U+2028, U+2029)", "caret placement is not compared when the prefix contains a tab or the column splits a multi-byte character"}
+	r.Extra["rule"] = "(a) every value and key position of 4 clean seeds + 1 noisy seed (type-echoing diagnostics) x 12 hostile payloads in double-quoted YAML; each diagnostic list rendered in 6 modes (default, -oneline, both also with colour, {{json .}}, custom template) and parsed back with the shipped problem-matcher regexp / JSON; the same payloads at every value and key of a local action metadata file and of a local reusable workflow file (as string, sequence, mapping; one position and every pair of positions), rendering the workflow that uses them; (b) PrettyPrint and GetTemplateFields over all sources <= L over {a, space, tab, LF, é, あ, CR, U+2028} (lines as the YAML parser counts them) x line -1..4 x column -1..7 against a reference. class = (kind, message skeleton) | snippet outcome; non-trivial = at least one diagnostic"
+	r.Extra["assumptions"] = []string{"the matcher's JavaScript regexp is translated to Go regexp syntax with '.' narrowed to JavaScript's meaning (no LF, CR, U+2028, U+2029)", "caret placement is not compared when the column splits a multi-byte character; a tab before the caret is expected to be repeated in the caret line"}
 
 	if raw := vReplayInput(); raw != nil {
 		var rp struct {
@@ -572,19 +600,23 @@ func TestVerifC16(t *testing.T) {
 	}
 }
 
-func c16Width(s string) (int, bool) {
-	w := 0
+// c16Fill is the text that stands in the caret line below s: a blank per terminal cell, tabs kept (a
+// tab is as wide as the same tab in the line above, whatever the terminal makes of it).
+func c16Fill(s string) (string, bool) {
+	var b strings.Builder
 	for _, c := range s {
 		switch {
-		case c == '\t' || c == 0xFFFD:
-			return 0, false
+		case c == 0xFFFD:
+			return "", false
+		case c == '\t':
+			b.WriteByte('\t')
 		case c == 'あ':
-			w += 2
+			b.WriteString("  ")
 		default:
-			w++
+			b.WriteByte(' ')
 		}
 	}
-	return w, true
+	return b.String(), true
 }
 
 // c16Lines splits a source into lines the way positions count them: the YAML parser, which
@@ -672,11 +704,11 @@ func c16Snippet(r *vReport, src string, line, col int) {
 		return
 	}
 	if col >= 1 && col-1 <= len(ref) {
-		if w, ok := c16Width(ref[:col-1]); ok {
+		if fill, ok := c16Fill(ref[:col-1]); ok {
 			caret := lines[3]
-			want := gutter + "| " + strings.Repeat(" ", w) + "^"
+			want := gutter + "| " + fill + "^"
 			if !strings.HasPrefix(caret, want) {
-				r.Violation("snippet-caret", fmt.Sprintf("source %q at %d:%d: caret line %q, expected the caret after %d columns", src, line, col, caret, w), replay)
+				r.Violation("snippet-caret", fmt.Sprintf("source %q at %d:%d: caret line %q, expected the caret after %q", src, line, col, caret, fill), replay)
 			}
 			if strings.Split(f.Snippet, "\n")[0] != ref {
 				r.Violation("snippet-template-field", fmt.Sprintf("source %q at %d:%d: Snippet field %q does not start with the referenced line %q", src, line, col, f.Snippet, ref), replay)
@@ -799,7 +831,7 @@ var c16CaretTemplates = []struct{ name, line, tok string }{
 // written before it on the line (ASCII, two-byte, double-width text).
 func c16Caret(r *vReport) {
 	for _, tp := range c16CaretTemplates {
-		for _, pl := range []struct{ name, text string }{{"ascii", "aaaaa"}, {"latin", "ééééé"}, {"wide", "あああ"}, {"mixed", "aéあ"}} {
+		for _, pl := range []struct{ name, text string }{{"ascii", "aaaaa"}, {"latin", "ééééé"}, {"wide", "あああ"}, {"mixed", "aéあ"}, {"tabs", "a\t\tb"}} {
 			line := strings.ReplaceAll(tp.line, "§", pl.text)
 			k := strings.Index(line, "«")
 			prefix := line[:k]
@@ -832,16 +864,17 @@ func c16Caret(r *vReport) {
 				continue
 			}
 			lines := strings.Split(out.String(), "\n")
-			w, _ := c16Width(prefix)
+			fill, _ := c16Fill(prefix)
+			w := len(fill)
 			found := false
 			for i, ol := range lines {
 				if strings.HasPrefix(ol, fmt.Sprintf("test.yaml:%d:%d: ", hit.Line, hit.Column)) && strings.Contains(ol, tp.tok) && i+3 < len(lines) {
 					found = true
 					caret := lines[i+3]
 					got := strings.Index(caret, "^") - len("  | ")
-					if !strings.HasPrefix(caret, "  | ") || got != w {
+					if !strings.HasPrefix(caret, "  | ") || got != w || caret[len("  | "):len("  | ")+got] != fill {
 						key := fmt.Sprintf("snippet-caret-displaced:%s:after-%s-text:%+d", tp.name, pl.name, got-w)
-						if pl.name != "ascii" && hit.Column == 1+utf8.RuneCountInString(prefix) && got < w {
+						if len(prefix) != utf8.RuneCountInString(prefix) && hit.Column == 1+utf8.RuneCountInString(prefix) && got < w {
 							// one cause: the reported column counts characters (as the YAML parser does),
 							// the caret is placed by bytes
 							key = "snippet-caret-displaced:column-in-characters-caret-by-bytes"
